@@ -65,6 +65,14 @@ func (m *Machine) Tx(fate Fate, f func(ns walletdb.ReadWriteBucket) error) (opEr
 	}
 }
 
+// takeFate is the fate drawn for the operation that is running, for the
+// operations that have no fate parameter of their own (Machine.ExtraFates).
+func (m *Machine) takeFate() Fate {
+	f := m.nextFate
+	m.nextFate = Commit
+	return f
+}
+
 // View runs f in a read transaction.
 func (m *Machine) View(f func(ns walletdb.ReadBucket)) {
 	err := walletdb.View(m.DB, func(tx walletdb.ReadTx) error { f(tx.ReadBucket(NSKey)); return nil })
@@ -238,7 +246,7 @@ func (m *Machine) OpExtend(t *rapid.T) {
 	if last < 0 {
 		last = 0
 	}
-	err, committed := m.Tx(Commit, func(ns walletdb.ReadWriteBucket) error {
+	err, committed := m.Tx(m.takeFate(), func(ns walletdb.ReadWriteBucket) error {
 		if internal {
 			return m.scoped(s.Scope).ExtendInternalAddresses(ns, a.Num, uint32(last))
 		}
@@ -247,6 +255,13 @@ func (m *Machine) OpExtend(t *rapid.T) {
 	m.Case.Logf("extend scope=%v acct=%d(watch-only=%v) branch=%d to=%d (next was %d) locked=%v -> err=%v", s.Scope, a.Num, a.WatchOnly, branch, last, a.Next[branch], m.Locked, err)
 	if err != nil {
 		m.Violation("extending scope %v account %d branch %d to index %d failed: %v", s.Scope, a.Num, branch, last, err)
+	}
+	if !committed && uint32(last) >= a.Next[branch] {
+		m.N["extend-rolled-back"]++
+		if m.KnownF22 != nil && m.KnownF22() {
+			m.Case.Logf("  rolled back: manager reloaded [known finding F22: indices advance before the commit]")
+			m.Restart()
+		}
 	}
 	if committed && uint32(last) >= a.Next[branch] {
 		for i := a.Next[branch]; i <= uint32(last); i++ {
@@ -361,7 +376,7 @@ func (m *Machine) OpMarkUsed(t *rapid.T) {
 		return
 	}
 	is := m.Issued[rapid.IntRange(0, len(m.Issued)-1).Draw(t, "which")]
-	err, committed := m.Tx(Commit, func(ns walletdb.ReadWriteBucket) error { return m.Mgr.MarkUsed(ns, is.Address) })
+	err, committed := m.Tx(m.takeFate(), func(ns walletdb.ReadWriteBucket) error { return m.Mgr.MarkUsed(ns, is.Address) })
 	m.Case.Logf("mark-used %s -> %v", is.Addr, err)
 	if err != nil {
 		m.Violation("MarkUsed(%s) failed: %v", is.Addr, err)
@@ -726,7 +741,7 @@ func (m *Machine) OpRename(t *rapid.T) {
 			return
 		}
 	}
-	err, committed := m.Tx(Commit, func(ns walletdb.ReadWriteBucket) error { return m.scoped(s.Scope).RenameAccount(ns, a.Num, name) })
+	err, committed := m.Tx(m.takeFate(), func(ns walletdb.ReadWriteBucket) error { return m.scoped(s.Scope).RenameAccount(ns, a.Num, name) })
 	m.Case.Logf("rename scope=%v acct=%d %q -> %q: %v", s.Scope, a.Num, a.Name, name, err)
 	if err != nil {
 		m.Violation("RenameAccount failed: %v", err)
@@ -760,7 +775,7 @@ func (m *Machine) OpImportKey(t *rapid.T) {
 	}
 	wif := m.nextWIF(t, compressed)
 	var ma waddrmgr.ManagedPubKeyAddress
-	err, committed := m.Tx(Commit, func(ns walletdb.ReadWriteBucket) error {
+	err, committed := m.Tx(m.takeFate(), func(ns walletdb.ReadWriteBucket) error {
 		var err error
 		ma, err = m.scoped(s.Scope).ImportPrivateKey(ns, wif, m.importStamp())
 		return err
@@ -806,7 +821,7 @@ func (m *Machine) OpImportScript(t *rapid.T) {
 	}
 	var ma waddrmgr.ManagedScriptAddress
 	secret := kind != "p2wsh-public"
-	opErr, committed := m.Tx(Commit, func(ns walletdb.ReadWriteBucket) error {
+	opErr, committed := m.Tx(m.takeFate(), func(ns walletdb.ReadWriteBucket) error {
 		var err error
 		if kind == "p2sh" {
 			ma, err = m.scoped(s.Scope).ImportScript(ns, script, m.importStamp())
@@ -884,7 +899,7 @@ func (m *Machine) OpNewScope(t *rapid.T) {
 		ExternalAddrType: rapid.SampledFrom(types).Draw(t, "extType"),
 		InternalAddrType: rapid.SampledFrom(types).Draw(t, "intType"),
 	}
-	err, committed := m.Tx(Commit, func(ns walletdb.ReadWriteBucket) error {
+	err, committed := m.Tx(m.takeFate(), func(ns walletdb.ReadWriteBucket) error {
 		_, err := m.Mgr.NewScopedKeyManager(ns, sc, schema)
 		return err
 	})
